@@ -126,6 +126,12 @@ class UdpRig:
     def send(self, port: int, data: bytes) -> None:
         self.sender.sendto(data, ("127.0.0.1", port))
 
+    def send_from_another_socket(self, port: int, data: bytes) -> None:
+        """Same destination, a different source socket (ordering between different sources is not guaranteed)."""
+        if not hasattr(self, "_others"):
+            self._others = [socket.socket(socket.AF_INET, socket.SOCK_DGRAM) for _ in range(6)]
+        self._others[(len(data) + port) % 6].sendto(data, ("127.0.0.1", port))
+
     def sentinel_datagram(self) -> (str, bytes):
         self._sentinel_no += 1
         tag = f"{SENTINEL_BASE + (self._sentinel_no & 0xFFFFF):06x}"
